@@ -2,8 +2,10 @@ package schist
 
 import (
 	"encoding/hex"
+	"encoding/json"
 	"fmt"
 	"strings"
+	"time"
 
 	"0chain.net/chaincore/state"
 	"0chain.net/chaincore/transaction"
@@ -187,7 +189,8 @@ func multisigOps() []OpDef {
 						in := map[string]interface{}{"proposal_id": p.ID + "x", "transfer": map[string]interface{}{"from": victim.ID, "to": to, "amount": amt}, "signature": sig}
 						return &Call{Name: "multisig.vote", Mut: mut, Meta: map[string]interface{}{"ms": w, "prop": p, "signer": i}, Spec: world.TxnSpec{From: from, To: sc, Fee: 0, Type: T, Func: "vote", Input: in}}
 					}
-				case 5: // expired: vote a week later
+				case 5: // expired: vote a week later (in a block of its own: the contract's clock is the block's creation date)
+					h.EndBlock()
 					h.W.Advance(8 * 24 * 3600 * 1e9)
 					mut = "after-expiry-window"
 				}
@@ -200,69 +203,211 @@ func multisigOps() []OpDef {
 
 // ---- C21 -------------------------------------------------------------------------------------------------------------------------
 
-// Reference per proposal key (wallet, proposal id): set of distinct signer threshold ids with valid compatible votes before expiry.
-type c21ref struct {
-	first    int64 // time of the first counted vote (creation of the proposal)
-	to       string
-	amount   uint64
-	voters   map[int]bool
-	executed int
+// The oracle is a reference model of every wallet and every proposal, built from the submitted transactions only (register and vote
+// inputs, block time); the contract's stored proposals are never the source of truth.
+
+// msModelWallet is a wallet as registered: who may sign and how many distinct signers a transfer needs.
+type msModelWallet struct {
+	ID, PubKey string
+	SignerIDs  []string // client id of signer i (hash of its public key)
+	SignerPubs []string
+	Required   int
+}
+
+// msModelProposal is one generation of a proposal (wallet, proposal id): it starts with the first counted vote and ends one
+// expiration period later; only votes cast inside that window by distinct registered signers on the identical transfer count.
+type msModelProposal struct {
+	Transfer state.Transfer
+	First    int64
+	Expiry   int64
+	Voters   map[string]bool // signer client ids
+	Executed int
+	Gen      int
+}
+
+type msModel struct {
+	Wallets map[string]*msModelWallet
+	Props   map[string]*msModelProposal
+	Expired map[string]*msModelProposal // last expired generation per key (evidence and the carry-over rule)
+	Gens    map[string]int
+}
+
+func msGetModel(h *Hist) *msModel {
+	m, _ := h.Vars["msC21"].(*msModel)
+	if m == nil {
+		m = &msModel{Wallets: map[string]*msModelWallet{}, Props: map[string]*msModelProposal{}, Expired: map[string]*msModelProposal{}, Gens: map[string]int{}}
+		h.Vars["msC21"] = m
+	}
+	return m
+}
+
+// msExpirationPeriod is the configured life time of a proposal in seconds (a constant of the contract's configuration).
+const msExpirationPeriod = int64(multisigsc.ExpirationTime)
+
+func msClientIDOfKey(pub string) string {
+	b, err := hex.DecodeString(pub)
+	if err != nil {
+		return ""
+	}
+	return encryption.Hash(b)
+}
+
+// msSchemeVerify asks the chain's signature scheme whether sig is pub's signature over msg.
+func msSchemeVerify(pub, sig, msg string) (ok bool) {
+	defer func() {
+		if e := recover(); e != nil {
+			ok = false
+		}
+	}()
+	sch := encryption.NewBLS0ChainScheme()
+	if sch.SetPublicKey(pub) != nil {
+		return false
+	}
+	good, err := sch.Verify(sig, msg)
+	return good && err == nil
+}
+
+type msEnvelope struct {
+	Name  string          `json:"name"`
+	Input json.RawMessage `json:"input"`
+}
+
+// msObserveRegister follows a successful registration.
+func msObserveRegister(h *Hist, m *msModel, o *TxnObs, env msEnvelope) {
+	if o.Outcome != "success" || !strings.HasPrefix(o.Txn.TransactionOutput, "success") {
+		return
+	}
+	var in struct {
+		ClientID  string   `json:"client_id"`
+		PublicKey string   `json:"public_key"`
+		IDs       []string `json:"signer_threshold_ids"`
+		Keys      []string `json:"signer_public_keys"`
+		Required  int      `json:"num_required"`
+	}
+	if json.Unmarshal(env.Input, &in) != nil {
+		return
+	}
+	if m.Wallets[in.ClientID] != nil {
+		h.C("C21", "obs_wallet_registered_again")
+		return
+	}
+	w := &msModelWallet{ID: in.ClientID, PubKey: in.PublicKey, SignerPubs: in.Keys, Required: in.Required}
+	for _, k := range in.Keys {
+		w.SignerIDs = append(w.SignerIDs, msClientIDOfKey(k))
+	}
+	m.Wallets[w.ID] = w
+	h.C("C21", fmt.Sprintf("wallets_registered_%d_of_%d", w.Required, len(w.SignerIDs)))
 }
 
 func monC21(h *Hist, o *TxnObs) {
-	if o.Call.Name != "multisig.vote" {
+	m := msGetModel(h)
+	var env msEnvelope
+	isMS := o.Txn.TransactionType == transaction.TxnTypeSmartContract && o.Txn.ToClientID == multisigsc.Address && json.Unmarshal([]byte(o.Txn.TransactionData), &env) == nil
+	if isMS && env.Name == "register" {
+		msObserveRegister(h, m, o, env)
+	}
+	if !isMS || env.Name != "vote" {
 		// any signed transfer outside a vote is unexpected
 		if len(o.STr) > 0 && o.Outcome == "success" {
 			h.V("C21", "signed-transfer-outside-vote", fmt.Sprintf("%s queued %d signed transfers", o.Call.Name, len(o.STr)), o)
 		}
 		return
 	}
-	w := o.Call.Meta["ms"].(*msWallet)
-	p := o.Call.Meta["prop"].(*msProposal)
-	i := o.Call.Meta["signer"].(int)
-	refs, _ := h.Vars["c21"].(map[string]*c21ref)
-	if refs == nil {
-		refs = map[string]*c21ref{}
-		h.Vars["c21"] = refs
+	var v struct {
+		ProposalID string         `json:"proposal_id"`
+		Transfer   state.Transfer `json:"transfer"`
+		Signature  string         `json:"signature"`
 	}
-	h.C("C21", "votes_judged")
-	key := w.Group.ID + "|" + p.ID
-	ref := refs[key]
-	now := int64(o.Block.CreationDate)
-	mut := o.Call.Mut
-	// executed transfers observed in this txn (applied = txn not rejected and status success)
 	executed := 0
 	if o.Outcome == "success" {
 		executed = len(o.STr)
 	}
-	if r := h.Runs["C21"]; r != nil {
-		r.Eval(1)
-		nv := 0
-		if ref != nil {
-			nv = len(ref.voters)
-		}
-		r.Distinct(fmt.Sprintf("t=%d|n=%d|votes=%d|mut=%s|%s|exec=%d", w.T, w.N, nv, mut, o.Outcome, executed))
-	}
-	if mut == "foreign-source" {
+	if json.Unmarshal(env.Input, &v) != nil {
+		h.C("C21", "votes_payload_unreadable")
 		if executed > 0 {
-			h.V("C21", "transfer-from-unregistered-wallet", "a vote executed a transfer out of a wallet that is not the multisig wallet", o)
+			h.V("C21", "executed-below-threshold", "a vote the monitor cannot read executed a transfer", o)
 		}
 		return
 	}
-	// is this a vote that counts by the statement?
-	counts := o.Outcome == "success" && (mut == "" || mut == "after-expiry-window")
-	if ref != nil && now-ref.first >= multisigsc.ExpirationTime {
-		// the proposal expired: it is forgotten; a later valid vote starts a fresh proposal
-		delete(refs, key)
+	h.C("C21", "votes_judged")
+	now := int64(o.Block.CreationDate)
+	mut := o.Call.Mut
+	w := m.Wallets[v.Transfer.ClientID]
+	key := v.Transfer.ClientID + "|" + v.ProposalID
+	ref := m.Props[key]
+	late := ""
+	if ref != nil && now >= ref.Expiry {
+		// the proposal expired: its votes are void; a later valid vote starts a fresh proposal
+		m.Expired[key] = ref
+		delete(m.Props, key)
+		late = fmt.Sprintf("late:votes=%d,exec=%d", len(ref.Voters), ref.Executed)
 		ref = nil
 	}
-	if counts && strings.HasPrefix(o.Txn.TransactionOutput, "success") {
-		if ref == nil {
-			ref = &c21ref{first: now, to: p.To, amount: p.Amount, voters: map[int]bool{}}
-			refs[key] = ref
+	old := m.Expired[key]
+	// does the vote count by the statement? registered signer of the wallet, validly signed, same transfer as the proposal
+	signer := -1
+	if w != nil {
+		for i, id := range w.SignerIDs {
+			if id != "" && id == o.Txn.ClientID {
+				signer = i
+			}
 		}
-		if ref.executed == 0 {
-			ref.voters[i] = true
+	}
+	valid := signer >= 0 && v.Transfer.Amount > 0 && v.Signature != "" &&
+		msSchemeVerify(w.SignerPubs[signer], v.Signature, transferHash(v.Transfer.ClientID, v.Transfer.ToClientID, uint64(v.Transfer.Amount)))
+	compatible := ref == nil || ref.Transfer == v.Transfer
+	cast := o.Outcome == "success" && strings.HasPrefix(o.Txn.TransactionOutput, "success")
+	counts := cast && valid && compatible
+	if cast && !counts {
+		h.C("C21", fmt.Sprintf("obs_vote_answered_success_but_does_not_count|valid=%v|compatible=%v", valid, compatible))
+	}
+	fresh := false
+	repeated := false
+	if counts {
+		if ref == nil {
+			m.Gens[key]++
+			ref = &msModelProposal{Transfer: v.Transfer, First: now, Expiry: now + msExpirationPeriod, Voters: map[string]bool{}, Gen: m.Gens[key]}
+			m.Props[key] = ref
+			fresh = true
+		}
+		repeated = ref.Voters[o.Txn.ClientID]
+		if ref.Executed == 0 {
+			ref.Voters[o.Txn.ClientID] = true
+		}
+	}
+	nv, gen, t, n := 0, 0, 0, 0
+	if ref != nil {
+		nv, gen = len(ref.Voters), ref.Gen
+	}
+	if w != nil {
+		t, n = w.Required, len(w.SignerIDs)
+	}
+	if r := h.Runs["C21"]; r != nil {
+		r.Eval(1)
+		if gen > 2 {
+			gen = 2
+		}
+		r.Distinct(fmt.Sprintf("t=%d|n=%d|votes=%d|gen=%d|%s|valid=%v|compat=%v|repeat=%v|mut=%s|%s|exec=%d", t, n, nv, gen, late, valid, compatible, repeated, mut, o.Outcome, executed))
+	}
+	if late != "" {
+		h.C("C21", "votes_after_expiry|"+o.Outcome)
+		if old != nil && w != nil && len(old.Voters) == w.Required-1 && old.Executed == 0 && valid && !old.Voters[o.Txn.ClientID] {
+			// the decisive case: only the expiry stands between this vote and an execution
+			h.C("C21", "votes_after_expiry_by_new_signer_on_proposal_one_short|"+o.Outcome)
+		}
+	}
+	if fresh && old != nil {
+		h.C("C21", "proposals_started_again_under_the_same_id_after_expiry")
+		// a vote at/after the expiry never adds to the votes cast before it: the stored proposal it produced starts empty
+		if node := h.NodeByKey(o.Post, multisigsc.Address+v.Transfer.ClientID+encryption.Hash(v.ProposalID)); node != nil {
+			h.C("C21", "restarted_proposals_checked_in_state")
+			ids := F(node.Val, "SignerThresholdIDs")
+			if ids.IsValid() && ids.Len() > 1 {
+				h.V("C21", "vote-after-expiry-added-to-expired-votes", fmt.Sprintf("a vote %d s after the expiry of a proposal with %d votes left a proposal holding %d votes", now-old.Expiry, len(old.Voters), ids.Len()), o)
+			}
+			if exp := I(node.Val, "ExpirationDate"); exp != ref.Expiry {
+				h.V("C21", "vote-after-expiry-kept-expired-window", fmt.Sprintf("proposal restarted at %d expires at %d, expected %d", now, exp, ref.Expiry), o)
+			}
 		}
 	}
 	if executed > 1 {
@@ -270,32 +415,228 @@ func monC21(h *Hist, o *TxnObs) {
 	}
 	if executed >= 1 {
 		h.C("C21", "executions_observed")
+		if ref != nil && ref.Gen > 1 {
+			h.C("C21", "executions_of_restarted_proposals")
+		}
 		st := o.STr[0]
-		if ref == nil || len(ref.voters) < w.T {
-			nv := 0
-			if ref != nil {
-				nv = len(ref.voters)
+		switch {
+		case w == nil:
+			h.V("C21", "transfer-from-unregistered-wallet", "a vote executed a transfer out of a wallet that is not a registered multisig wallet", o)
+		case ref == nil || len(ref.Voters) < w.Required:
+			detail := fmt.Sprintf("transfer executed with %d distinct valid votes of registered signers inside the proposal's life time, %d required (mutation %q)", nv, w.Required, mut)
+			if late != "" && old != nil {
+				detail += fmt.Sprintf("; the vote came %d s after the expiry of a proposal that had collected %d votes", now-old.Expiry, len(old.Voters))
 			}
-			h.V("C21", "executed-below-threshold", fmt.Sprintf("transfer executed with %d distinct valid votes, %d required (mutation %q)", nv, w.T, mut), o)
+			h.V("C21", "executed-below-threshold", detail, o)
 		}
 		if ref != nil {
-			ref.executed++
-			if ref.executed > 1 {
-				h.V("C21", "proposal-executed-twice", fmt.Sprintf("proposal %s executed %d times", p.ID, ref.executed), o)
+			ref.Executed++
+			if ref.Executed > 1 {
+				h.V("C21", "proposal-executed-twice", fmt.Sprintf("proposal %s executed %d times", v.ProposalID, ref.Executed), o)
+			}
+			if st.Transfer != ref.Transfer {
+				h.V("C21", "executed-transfer-differs-from-proposal", fmt.Sprintf("executed %+v, voted %+v", st.Transfer, ref.Transfer), o)
 			}
 		}
 		if err := st.VerifySignature(true); err != nil {
 			h.V("C21", "executed-transfer-signature-invalid", fmt.Sprintf("executed transfer does not verify under the wallet key: %v", err), o)
 		}
-		if st.ClientID != w.Group.ID || st.PublicKey != w.Group.PubKey {
-			h.V("C21", "executed-transfer-wrong-wallet", "executed transfer is not from the multisig wallet / key", o)
+		if w != nil {
+			if st.ClientID != w.ID || st.PublicKey != w.PubKey {
+				h.V("C21", "executed-transfer-wrong-wallet", "executed transfer is not from the multisig wallet / key", o)
+			}
+			d := h.deltas(o)
+			if st.ToClientID != st.ClientID && d[w.ID] != -int64(st.Amount) {
+				h.V("C21", "executed-amount-mismatch", fmt.Sprintf("wallet delta %d, transfer amount %d", d[w.ID], st.Amount), o)
+			}
 		}
-		d := h.deltas(o)
-		if st.ToClientID != st.ClientID && d[w.Group.ID] != -int64(st.Amount) {
-			h.V("C21", "executed-amount-mismatch", fmt.Sprintf("wallet delta %d, transfer amount %d", d[w.Group.ID], st.Amount), o)
-		}
-	} else if counts && ref != nil && ref.executed == 0 && len(ref.voters) >= w.T && strings.HasPrefix(o.Txn.TransactionOutput, "success") {
+	} else if counts && ref.Executed == 0 && w != nil && len(ref.Voters) >= w.Required {
 		// enough distinct valid votes but nothing executed
-		h.V("C21", "threshold-reached-not-executed", fmt.Sprintf("%d distinct valid votes (required %d) but no transfer was executed: %s", len(ref.voters), w.T, trunc(o.Txn.TransactionOutput, 100)), o)
+		h.V("C21", "threshold-reached-not-executed", fmt.Sprintf("%d distinct valid votes (required %d) but no transfer was executed: %s", len(ref.Voters), w.Required, trunc(o.Txn.TransactionOutput, 100)), o)
 	}
+}
+
+// ---- directed scenario: votes around the expiry -----------------------------------------------------------------------------------
+
+// msVote builds the vote of signer i of wallet w on proposal p.
+func msVote(h *Hist, w *msWallet, p *msProposal, i int, mut string) *Call {
+	signer := w.Signers[i]
+	sig := signer.Sign(transferHash(w.Group.ID, p.To, p.Amount))
+	in := map[string]interface{}{"proposal_id": p.ID, "transfer": map[string]interface{}{"from": w.Group.ID, "to": p.To, "amount": p.Amount}, "signature": sig}
+	return &Call{Name: "multisig.vote", Mut: mut, Meta: map[string]interface{}{"ms": w, "prop": p, "signer": i},
+		Spec: world.TxnSpec{From: signer, To: multisigsc.Address, Fee: 0, Type: transaction.TxnTypeSmartContract, Func: "vote", Input: in}}
+}
+
+// msScenarioC21 registers several wallets (2-of-3, 3-of-5, ...), opens several proposals per wallet that stop one vote short of the
+// threshold (interleaved, so that they sit at different places of the contract's expiration queue), lets them expire, and then
+// votes late: new signers, repeated signers and strangers on proposals at the tail, in the middle and at the head of the queue;
+// finally proposals are started again under their old ids and completed. Some proposals are younger and still alive at that time.
+func msScenarioC21(h *Hist, mons []Monitor) {
+	r := h.R.Fork("c21-expiry")
+	ms := h.S.Ms
+	submit := func(c *Call) *TxnObs {
+		o := h.Submit(c, mons)
+		if o.Outcome != "rejected" {
+			h.S.Accepted = append(h.S.Accepted, o.Txn)
+			if len(h.S.Accepted) > 64 {
+				h.S.Accepted = h.S.Accepted[1:]
+			}
+		}
+		if h.TxInBlk >= 1+r.Intn(4) {
+			h.EndBlock()
+			h.W.Advance(time.Duration(1+r.Intn(90)) * time.Second)
+		}
+		return o
+	}
+	jump := func(d time.Duration) {
+		h.EndBlock()
+		h.W.Advance(d)
+	}
+	shapes := [][2]int{{2, 3}, {3, 5}, {2, 3}, {3, 4}, {2, 2}, {4, 5}}
+	r.Shuffle(len(shapes)-2, func(i, j int) { shapes[i], shapes[j] = shapes[j], shapes[i] })
+	nw := 2 + r.Intn(2)
+	var ws []*msWallet
+	for k := 0; k < nw && len(ms.Wallets) < 3; k++ {
+		ms.n++
+		g := h.W.Clients[ms.n%len(h.W.Clients)]
+		t, n := shapes[k][0], shapes[k][1]
+		label := fmt.Sprintf("%s-ms%d", h.ID, ms.n)
+		signers, ids := makeShares(g, t, n, label)
+		var pubs []string
+		for _, s := range signers {
+			h.Names[s.ID] = s.Name
+			h.W.Wallets[s.ID] = s
+			pubs = append(pubs, s.PubKey)
+		}
+		w := &msWallet{Group: g, T: t, N: n, Signers: signers, ThreshIDs: ids}
+		in := map[string]interface{}{"client_id": g.ID, "signature_scheme": "bls0chain", "public_key": g.PubKey, "signer_threshold_ids": ids, "signer_public_keys": pubs, "num_required": t}
+		o := submit(&Call{Name: "multisig.register", Spec: world.TxnSpec{From: g, To: multisigsc.Address, Fee: Coin(h.fee(r) % 1000), Type: transaction.TxnTypeSmartContract, Func: "register", Input: in}})
+		if o.Outcome == "success" {
+			w.Registered = true
+			ms.Wallets = append(ms.Wallets, w)
+			ws = append(ws, w)
+		}
+	}
+	if len(ws) == 0 {
+		return
+	}
+	type slot struct {
+		w     *msWallet
+		p     *msProposal
+		voted []int // signers that voted before the expiry
+		young bool
+	}
+	var queue []*slot
+	open := func(w *msWallet, short int, young bool) {
+		amt := []uint64{1, 7, 1e9, 3e9 + uint64(r.Intn(1000))}[r.Intn(4)]
+		p := &msProposal{ID: fmt.Sprintf("x%d-%d", len(w.Proposals), r.Intn(1000)), To: h.anyClient(r).ID, Amount: amt, Voted: map[int]bool{}}
+		w.Proposals = append(w.Proposals, p)
+		s := &slot{w: w, p: p, young: young}
+		queue = append(queue, s)
+		perm := make([]int, w.N)
+		for i := range perm {
+			perm[i] = i
+		}
+		r.Shuffle(len(perm), func(i, j int) { perm[i], perm[j] = perm[j], perm[i] })
+		for k := 0; k < w.T-short; k++ {
+			if o := submit(msVote(h, w, p, perm[k], "")); o.Outcome == "success" {
+				s.voted = append(s.voted, perm[k])
+			}
+			if r.Chance(0.2) {
+				submit(msVote(h, w, p, perm[k], "repeated-signer"))
+			}
+		}
+	}
+	// old proposals, one vote short (sometimes two short, sometimes completed before the expiry), interleaved over the wallets
+	per := 2 + r.Intn(2)
+	for round := 0; round < per; round++ {
+		order := r.Intn(len(ws))
+		for k := range ws {
+			w := ws[(k+order)%len(ws)]
+			short := 1
+			switch r.Intn(8) {
+			case 0:
+				short = 0
+			case 1:
+				if w.T > 2 {
+					short = 2
+				}
+			}
+			open(w, short, false)
+		}
+	}
+	partial := r.Chance(0.5)
+	if partial {
+		// younger proposals: still alive when the old ones have expired
+		jump(time.Duration(3*24+r.Intn(48)) * time.Hour)
+		for _, w := range ws {
+			open(w, 1, true)
+		}
+		jump(time.Duration(4*24+1+r.Intn(20)) * time.Hour)
+	} else {
+		jump(7*24*time.Hour + time.Duration(r.Intn(3*3600))*time.Second)
+	}
+	unvoted := func(s *slot) int {
+		for i := 0; i < s.w.N; i++ {
+			used := false
+			for _, j := range s.voted {
+				used = used || i == j
+			}
+			if !used {
+				return i
+			}
+		}
+		return -1
+	}
+	late := func(s *slot) {
+		switch k := r.Intn(10); {
+		case k < 7:
+			if i := unvoted(s); i >= 0 {
+				if o := submit(msVote(h, s.w, s.p, i, "after-expiry-window")); o.Outcome == "success" {
+					s.voted = append(s.voted, i)
+				}
+			}
+		case k < 9 && len(s.voted) > 0:
+			submit(msVote(h, s.w, s.p, s.voted[r.Intn(len(s.voted))], "after-expiry-window-repeated-signer"))
+		default:
+			c := msVote(h, s.w, s.p, 0, "after-expiry-window-stranger")
+			c.Spec.From = h.anyClient(r)
+			submit(c)
+		}
+	}
+	// late votes: tail first, then the middle, then the head (only the head of the queue is collected by a vote)
+	idx := make([]int, 0, len(queue))
+	for i := len(queue) - 1; i >= 1; i-- {
+		idx = append(idx, i)
+	}
+	if r.Chance(0.5) {
+		r.Shuffle(len(idx), func(i, j int) { idx[i], idx[j] = idx[j], idx[i] })
+	}
+	idx = append(idx, 0)
+	for _, i := range idx {
+		late(queue[i])
+	}
+	// start the proposals again under their ids, oldest first (each vote collects the expired head), and complete some of them
+	for _, s := range queue {
+		s.voted = nil
+		perm := make([]int, s.w.N)
+		for i := range perm {
+			perm[i] = i
+		}
+		r.Shuffle(len(perm), func(i, j int) { perm[i], perm[j] = perm[j], perm[i] })
+		k := 1
+		if r.Chance(0.5) {
+			k = s.w.T
+		}
+		for j := 0; j < k; j++ {
+			if o := submit(msVote(h, s.w, s.p, perm[j], "restart")); o.Outcome == "success" {
+				s.voted = append(s.voted, perm[j])
+			}
+		}
+	}
+	h.EndBlock()
+}
+
+func init() {
+	RegisterScenario(Scenario{Prop: "C21", Name: "votes-around-expiry", Every: 1, Fn: msScenarioC21})
 }
